@@ -1256,3 +1256,49 @@ pub fn suite_history(out: &mut Out, tier: &str, rng: &mut Rng) {
         out.emit(json!({"op": "threads", "n": 1, "rounds": 3, "calls": calls}));
     }
 }
+
+
+/// many AVPs in one message: counts around 16/17, 255/256/257 and beyond (decode, chain and round trip)
+pub fn suite_many_avps(out: &mut Out, tier: &str, rng: &mut Rng) {
+    let counts_list: Vec<usize> = if tier == "thorough" {
+        vec![13, 15, 16, 17, 18, 31, 32, 33, 63, 64, 65, 127, 128, 129, 254, 255, 256, 257, 258, 511, 512, 513, 1000, 4000]
+    } else {
+        vec![15, 16, 17, 18, 33, 64, 65, 255, 256, 257, 300]
+    };
+    for &n in counts_list.iter() {
+        for variant in 0..2 {
+            let mut avps = vec![gen_message_type(rng)];
+            for i in 1..n {
+                let a = if variant == 0 {
+                    // small fixed kinds so that even thousands fit the 16-bit message length
+                    match i % 3 {
+                        0 => json!({"k": "SequencingRequired", "f": []}),
+                        1 => json!({"k": "ProtocolVersion", "f": [rng.u8(), rng.u8()]}),
+                        _ => json!({"k": "ReceiveWindowSize", "f": [rng.u16()]}),
+                    }
+                } else if n <= 300 {
+                    gen_avp(rng, 6)
+                } else {
+                    json!({"k": "FirmwareRevision", "f": [rng.u16()]})
+                };
+                avps.push(a);
+            }
+            let m = json!({"k": "Control", "length": 0, "tunnel_id": rng.u16(), "session_id": rng.u16(), "ns": rng.u16(), "nr": rng.u16(), "avps": avps});
+            let wire = enc_control(&m);
+            if wire.len() > 65535 {
+                continue;
+            }
+            out.emit(json!({"op": "roundtrip", "kind": "msg", "v": m}));
+            out.emit(json!({"op": "decode", "in": bytes_json(&wire), "opts": [true, true, true], "entry": "validate", "rdr": "slice"}));
+            out.emit(json!({"op": "chain", "in": bytes_json(&wire), "opts": [true, true, true]}));
+            // one bad record at a particular position among many
+            let recs: Vec<Vec<u8>> = m["avps"].as_array().unwrap().iter().map(enc_avp).collect();
+            let mut recs2 = recs.clone();
+            let at = *rng.pick(&[n - 1, n / 2, 16.min(n - 1), 17.min(n - 1), 1]);
+            recs2[at] = enc_record(1, 8, 0, *rng.pick(&[20u16, 40, 255]), &[1, 2]);
+            let body: Vec<u8> = recs2.iter().flatten().copied().collect();
+            let b = enc_control_raw(flag_word(true, true, true, false, false, 2), None, [1, 2, 3, 4], &body);
+            out.emit(json!({"op": "ctl_records", "in": bytes_json(&b), "recs": recs2.iter().map(|r| bytes_json(r)).collect::<Vec<_>>()}));
+        }
+    }
+}
